@@ -131,8 +131,13 @@ func (g *rig) receive(frames [][]byte) (hs []handled, class string, panicMsg str
 	class = wf.None
 	for _, f := range frames {
 		var err error
+		nEv, nCfg := len(g.rec.Handled), g.rec.CfgCalls
 		if p, msg := engine.Catch(func() { err = gnet.VerifReceiveMessage(g.pool, g.conn, f) }); p {
 			return nil, "panic", msg
+		}
+		g.rec.VerifNoteHandled(nEv, nCfg)
+		if len(g.rec.Handled) > nEv+1 {
+			return nil, "handle-recorded-more-than-one-event", ""
 		}
 		if err != nil {
 			switch err {
@@ -639,16 +644,16 @@ func c22(r *engine.Run) {
 		hist["delivered:"+k] = v
 	}
 	r.Finish(engine.Coverage{
-		"evaluations":                     evals,
-		"distinct_nontrivial":             nontrivial,
-		"rule":                            "one evaluation = one real readLoop run over one (stream, chunking) pair; streams are de-duplicated and chunkings of a stream are distinct by construction; non-trivial = the chunking has >= 2 reads or the stream contains a protocol defect",
-		"samples":                         samples.list(),
-		"exhaustive":                      true,
-		"outcome_histogram":               hist,
-		"sections":                        sections.Map(),
-		"receive_stage_runs":              stage2runs,
-		"frames_dropped_with_bad_prefix":  dropOnErr,
-		"bad_prefix_at_end_seen_as_eof":   lateLen,
+		"evaluations":                    evals,
+		"distinct_nontrivial":            nontrivial,
+		"rule":                           "one evaluation = one real readLoop run over one (stream, chunking) pair; streams are de-duplicated and chunkings of a stream are distinct by construction; non-trivial = the chunking has >= 2 reads or the stream contains a protocol defect",
+		"samples":                        samples.list(),
+		"exhaustive":                     true,
+		"outcome_histogram":              hist,
+		"sections":                       sections.Map(),
+		"receive_stage_runs":             stage2runs,
+		"frames_dropped_with_bad_prefix": dropOnErr,
+		"bad_prefix_at_end_seen_as_eof":  lateLen,
 		"alphabet": map[string]interface{}{
 			"messages": len(alpha), "sequence_depth": r.Pick(2, 3), "structured_streams": len(streams),
 			"raw_symbols": len(syms), "raw_max_len": rawLen, "raw_streams": c22RawCount(len(syms), rawLen) - 1,
